@@ -3,6 +3,27 @@ import json, os, re, sys
 from vlib import common as C
 from vlib.tables import run_extractor
 
+MANIFEST = {
+    "text": "Lean theorems about M, a transcription of libcoap's global lock (coap_lock_lock_func / coap_lock_unlock_func in both variants, "
+            "the four callback macros): for any number of threads running any well-nested programs under any interleaving — "
+            "mutual_exclusion / critical_sections_exclusive (library code and lock-keeping callbacks of different threads never overlap; "
+            "re-entry only by the holder from inside a callback), balanced (a returned top-level API call leaves the mutex free, "
+            "in_callback = lock_count = 0), reentrancy_ok / no_self_deadlock (a callback may call the API), no_deadlock / progress / "
+            "not_blocked_once_others_return, no_assert_fails. T1 facts regenerated from the tree on every run and proved by decide: "
+            "advertised_implies_compiled (config probes of the CMake build and of the emulated autotools configuration), "
+            "api_sites_bracketed (all 71 COAP_API wrappers lock / call the worker / unlock on every path), callback_sites_wrapped_partial "
+            "(request, response, NACK, event, ping, pong handlers are invoked through the macros). M is tied to the compiled code by "
+            "differential runs of the real macros and lock functions: single-thread token sequences and 2..8 real threads under "
+            "turn-based schedules, both lock variants. partial: race freedom of the compiled C outside the lock protocol is only observed "
+            "by a ThreadSanitizer smoke run (support, not proof); two open findings (auxiliary callbacks invoked without the macro; "
+            "unsynchronised pre-check read of global_lock) are reported as KNOWN-FINDING.",
+    "note": "Trusted: Lean kernel (+ propext, Classical.choice, Quot.sound), pthread mutex semantics, the T1 probe and static scan "
+            "(a heuristic statement parser over gcc -E -fdirectives-only output), the harnesses/generators, the hand transcription M "
+            "(checked against the compiled code on the sequences/schedules run only). Model decisions A1 (token atomicity), A2 "
+            "(coap_startup called), nesting depth < 2^32-1; the link from 'the tree's threads run well-nested programs' to the source is "
+            "the static scan, not a proof. Autotools is emulated through CMake with configure.ac's AC_DEFINE values.",
+    "design_ref": "DESIGN.md §4 C13; design/C13.md",
+}
 LEAN_MODULES = ["CoapVerif.Props.C13"]
 NAMESPACE = "Coap.C13"
 REQUIRED_THEOREMS = ["advertised_implies_compiled", "advertised_implies_compiled_all", "api_sites_bracketed",
@@ -244,8 +265,8 @@ def generate(ctx, escalate=False):
     out = ["lkcfg"]
     out += ["lkapi %s %s" % (a["file"], a["name"]) for a in sc["api"]]
     out += ["lkcb %s %s %s %d" % (c["file"], c["func"], c["callee"], c["k"]) for c in sc["callbacks"]]
-    nseq = 100000 if ctx.thorough() else 6000
-    nsch = 20000 if ctx.thorough() else 1500
+    nseq = 300000 if ctx.thorough() else 20000
+    nsch = 60000 if ctx.thorough() else 5000
     if escalate:
         nseq *= 3; nsch *= 3
     for i in range(nseq):
@@ -298,6 +319,8 @@ def judge(ctx, c):
         if i == "ill-nested" or m == "ill-nested":
             return None if i == m else ("tie", "nesting check differs: %s vs %s" % (i, m))
         iw, sw = i.split(), (s or "").split()
+        if "blk" in iw:
+            return ("spec", "token %d: the thread blocks on the lock it holds itself (self-deadlock): %s" % (iw.index("blk"), i[:200]))
         if len(iw) != len(sw):
             return ("spec", "the run did not produce one observation per token: " + i[:200])
         for k, (o, e) in enumerate(zip(iw, sw)):
@@ -318,8 +341,11 @@ def judge(ctx, c):
         if i == "ill-nested" or m == "ill-nested":
             return None if i == m else ("tie", "nesting check differs: %s vs %s" % (i, m))
         iw = i.split()
-        if not iw or iw[-1] != "fin:0,0,0,0,0":
-            return ("spec", "the threads did not all complete with the lock free: " + (iw[-1] if iw else i))
+        fin = iw[-1][4:].split(",") if iw and iw[-1].startswith("fin:") else []
+        # (the value of global_lock.pid after the last unlock is not prescribed by the property)
+        if len(fin) != 5 or fin[1:] != ["0", "0", "0", "0"]:
+            return ("spec", "the threads did not all complete with the lock free and balanced: " + (iw[-1] if iw else i))
+        iw = iw[:-1]
         for k, o in enumerate(iw):
             if o != "blk" and o.split(",")[-1] != "0":
                 return ("spec", "turn %d: an assert() of the lock code fails" % k)
@@ -366,8 +392,6 @@ def search(ctx, tie_breaks, proof):
         w = c["input"].split()
         if w[0] == "lkseq":
             toks = w[2:]
-            for k in range(1, len(toks) + 1):
-                pass
             out.append("lkseq %s %s" % ("1" if w[1] == "0" else "0", " ".join(toks)))
     for i in range(3000):
         out.append("lkseq %d %s" % (i & 1, " ".join(gen_prog(rng, rng.choice([4, 8, 12])))))
